@@ -40,13 +40,16 @@ def run(facts, rep, tier):
     rep.rule("R01.2", "call graph acyclic; every reachable loop iterates a finite source", "P")
     rep.rule("R01.3", "file source: loop ends only at EOF / I/O error; main returns the thread's result", "P")
     rep.rule("R01.5", "no input is thrown away unseen: nothing on the reader thread skips bytes or lines of the source", "N")
+    rep.rule("R01.6", "the obligation inventory is complete: reader-thread code outside the analysed contexts has no panic site of its own", "P")
 
     out = k2_results(facts, tier)
     results = out["results"]
     sites = {}
     nctx = 0
+    ENTERED.clear()
     for r in results:
         nctx += 1
+        ENTERED.update(getattr(r, "entered", None) or ())
         for o in r.obligations:
             s = sites.setdefault(o["site"], {"n": 0, "bad": 0, "ctx": None, "ops": None, "loc": o["loc"], "kind": o["kind"]})
             s["n"] += 1
@@ -94,6 +97,7 @@ def run(facts, rep, tier):
     _eof(facts, rep)
     _locks(facts, rep)
     _discards(facts, rep)
+    _completeness(facts, rep)
     if e2_broken and not rep.findings:
         raise Broken(e2_broken[0])
     for m in sorted(set(x.split(": ", 1)[-1] for x in e2_broken))[:3]:
@@ -104,7 +108,11 @@ def run(facts, rep, tier):
     ]
 
 
+ENTERED = set()
+
+
 def _merge(sites, I):
+    ENTERED.update(I.entered)
     for o in I.obligations:
         s = sites.setdefault(o["site"], {"n": 0, "bad": 0, "ctx": None, "ops": None, "loc": o["loc"], "kind": o["kind"]})
         s["n"] += 1
@@ -280,7 +288,11 @@ def _termination(facts, rep):
     for a, b in cyc[:3]:
         rep.add(Finding("R01.2", "recursion : %s -> %s" % (a, b), "recursive call cycle through %s -> %s: termination not evident" % (a, b), facts.bodies[a].loc()))
     nloops = 0
-    tcp = [b.name for b in facts.bodies.values() if any((t["callee"].get("path") or "").endswith("net::TcpStream::connect") for _, t in b.calls())]
+    # the connect loop may sit above a helper that makes the connection (`connect_once(addr)?`): every body from which
+    # TcpStream::connect is reachable counts as part of the TCP side
+    direct = [b.name for b in facts.bodies.values() if b.kind != "promoted"
+              and any((t["callee"].get("path") or "").endswith("net::TcpStream::connect") for _, t in b.calls())]
+    tcp = [n for n in cg if n in facts.bodies and set(direct) & reachable_bodies(facts, [n], cg)]
     for n in sorted(reach):
         b = facts.bodies[n]
         cfg = CFG(b)
@@ -311,7 +323,11 @@ def _termination(facts, rep):
                 ok = True
             if not ok and _zero_read_leaves(b, cfg, du, h, blks):
                 ok = True
-            if n in tcp and not ok:
+            in_loop_calls = [b.blocks[bi]["term"] for bi in blks if b.blocks[bi]["term"]["k"] == "call"]
+            connects_here = any((t["callee"].get("path") or "").endswith("net::TcpStream::connect") for t in in_loop_calls) or any(
+                set(direct) & reachable_bodies(facts, [x], cg)
+                for x in [callee_name(t) for t in in_loop_calls] + [e[2] for e in cg.get(n, []) if e[1] is None and e[0] in blks] if x in facts.bodies)
+            if n in tcp and not ok and connects_here:
                 # the reconnect loop is the one permitted non-terminating loop; it must be unreachable without --tcp (C18)
                 rep.oblige(True, ("loop", n, "tcp"))
                 continue
@@ -324,7 +340,7 @@ def _termination(facts, rep):
     for r in roots:
         b = facts.bodies[r]
         calls = {callee_name(t): bi for bi, t in b.calls()}
-        ok = any(n in tcp for n in calls) and any("is_empty" in (n or "") for n in calls)
+        ok = any(n in tcp for n in calls if n != r) and any("is_empty" in (n or "") for n in calls)
         rep.oblige(ok, "tcp dispatch")
         if not ok:
             rep.add(Finding("R01.2", "%s : TCP loop not guarded by tcp.is_empty()" % r, "the endless reconnect loop is not confined to the --tcp source", b.loc()))
@@ -366,6 +382,134 @@ def _discards(facts, rep):
                                 "%s: %s - a well-formed line that follows (or is part of) what is dropped is never processed" % (name, bad),
                                 span_loc(t.get("span")) if t.get("span") else b.loc()))
     rep.instances("R01.5", n, floor=3, what="calls on the input source / line iterator on the reader thread")
+
+
+# Result::unwrap/expect outside the analysed contexts is accepted only on these environment results (documented assumptions:
+# lock poisoning is unreachable with a single reader thread, file-system failures are environment exits, writing into a String
+# cannot fail)
+ENV_RESULTS = ("sync::Mutex::<T>::lock", "sync::RwLock::<T>::read", "sync::RwLock::<T>::write", "sync::poison::mutex::Mutex::<T>::lock",
+               "sync::poison::rwlock::RwLock::<T>::read", "sync::poison::rwlock::RwLock::<T>::write", "fs::File::create", "fs::File::open",
+               "fs::OpenOptions::open", "fmt::Write::write_fmt", "fmt::Write::write_str", "fmt::Write::write_char")
+POINTER_CHECKS = ("misaligned", "nullptr", "invalid_enum")      # compiler-inserted validity checks (debug builds) on pointers made by safe std macros
+PANIC_PATHS = ("core::panicking::", "std::rt::begin_panic", "std::rt::panic_fmt", "core::option::unwrap_failed", "core::option::expect_failed",
+               "core::result::unwrap_failed", "core::slice::index::", "core::str::slice_error_fail")
+
+
+def _small_step_counter(t):
+    """`x + c` / `x - c`.. is not what this accepts - only a 64-bit counter stepped by a small constant: 2^48 loop iterations
+    are outside any finite input that can be fed"""
+    if t["kind"] not in ("overflow:Add",):
+        return False
+    ops = t.get("ops") or []
+    if len(ops) != 2:
+        return False
+    c = [o["const"] for o in ops if "const" in o]
+    if len(c) != 1 or c[0].get("ty") not in ("u64", "usize", "i64", "isize", "u128", "i128"):
+        return False
+    try:
+        return 0 <= int(c[0].get("int")) <= 65536
+    except (TypeError, ValueError):
+        return False
+
+
+_BITS = {"u8": 8, "i8": 8, "u16": 16, "i16": 16, "u32": 32, "i32": 32, "u64": 64, "i64": 64, "usize": 64, "isize": 64, "u128": 128, "i128": 128}
+
+
+def _const_safe(b, t):
+    """the assert's own operands are constants and the checked operation is in range (`1 << 5` on a u8)"""
+    ops = t.get("ops") or []
+    kind = t["kind"]
+    if len(ops) != 2 or "const" not in ops[1]:
+        return False
+    try:
+        r = int(ops[1]["const"].get("int"))
+    except (TypeError, ValueError):
+        return False
+    if "const" in ops[0]:
+        lty = ops[0]["const"].get("ty")
+    else:
+        pl = operand_place(ops[0])
+        lty = b.locals[pl["local"]]["ty"]["s"] if pl is not None and not pl["proj"] else None
+    if lty not in _BITS:
+        return False
+    if kind in ("overflow:Shl", "overflow:Shr"):
+        return 0 <= r < _BITS[lty]
+    if "const" in ops[0] and kind in ("overflow:Add", "overflow:Sub", "overflow:Mul"):
+        try:
+            l = int(ops[0]["const"].get("int"))
+        except (TypeError, ValueError):
+            return False
+        v = l + r if kind.endswith("Add") else l - r if kind.endswith("Sub") else l * r
+        lo, hi = (-(1 << (_BITS[lty] - 1)), (1 << (_BITS[lty] - 1)) - 1) if lty[0] == "i" else (0, (1 << _BITS[lty]) - 1)
+        return lo <= v <= hi
+    return False
+
+
+def panic_sites(b):
+    """-> [(terminator, description of the panic site or None if it is an accepted environment result, source callee)] of one
+    body, by inspection only (for code that no E2 context interprets)"""
+    out = []
+    du = None
+    for bi, blk in enumerate(b.blocks):
+        if blk["cleanup"]:
+            continue
+        t = blk["term"]
+        bad = None
+        if t["k"] == "assert":
+            if t["kind"] in POINTER_CHECKS or _small_step_counter(t) or _const_safe(b, t):
+                continue
+            bad = "%s check" % t["kind"]
+        elif t["k"] == "call":
+            c = t["callee"]
+            nm, p = c.get("name"), (c.get("path") or "")
+            if nm in ("unwrap", "expect", "unwrap_err", "expect_err", "unwrap_unchecked") and ("option::Option" in p or "result::Result" in p):
+                du = du or DefUse(b)
+                r = du.root(t["args"][0])
+                src = callee_name(r[1]) if r[0] == "call" else None
+                if "result::Result" in p and src and any(src.endswith(e) for e in ENV_RESULTS):
+                    out.append((t, None, src))
+                    continue
+                bad = "%s of %s" % (nm, "the result of %s" % src if src else "a computed %s" % ("Option" if "Option" in p else "Result"))
+            elif any(p.startswith(x) for x in PANIC_PATHS):
+                bad = "explicit panic (%s)" % p.split("::")[-1]
+            elif nm in ("index", "index_mut") and "ops::Index" in p:
+                bad = "indexing call"
+            elif nm in ("div", "rem", "add", "sub", "mul", "shl", "shr", "neg") and p.startswith("std::ops::") and c.get("instance") is None:
+                bad = "operator %s on a library type" % nm
+        if bad is not None:
+            out.append((t, bad, None))
+    return out
+
+
+def _completeness(facts, rep):
+    """R01.6: R01.1 discharges the obligations E2 meets in the contexts it runs (line gate, decode and update path, option and
+    presentation units). The rest of the reader thread - the line loop, the connect loop, set-up and printing glue - is not
+    interpreted; this rule makes that split explicit and checks that such a body has no panic site of its own: no Assert
+    terminator (overflow, bounds, division), no Option unwrap, no indexing call, no explicit panic, and Result::unwrap/expect
+    only on the environment results listed in ENV_RESULTS."""
+    cg = call_graph(facts)
+    roots = [b.name for b in facts.bodies.values() if b.kind == "closure" and b.parent and b.parent.endswith("spawn_reader_thread")]
+    reach = reachable_bodies(facts, roots, cg)
+    n = 0
+    nsite = 0
+    for name in sorted(reach):
+        if name in ENTERED:
+            continue
+        b = facts.bodies[name]
+        if b.kind == "promoted" or "::tests::" in name:
+            continue
+        n += 1
+        for t, bad, src in panic_sites(b):
+            nsite += 1
+            if bad is None:
+                rep.oblige(True, ("env-result", name, src))
+                continue
+            rep.oblige(False, ("uncovered", name, bad))
+            rep.add(Finding("R01.6", "%s : %s outside the analysed contexts" % (name, bad),
+                            "%s is on the reader thread but is not part of any analysed context, and it contains a panic site (%s): "
+                            "nothing shows it safe for every input" % (name, bad), span_loc(t.get("span"))))
+    rep.extra["bodies_outside_contexts"] = n
+    rep.instances("R01.6", n, floor=5, what="reader-thread bodies outside the analysed contexts, scanned for panic sites (%d accepted environment results)" % nsite)
 
 
 def _locks(facts, rep):
@@ -616,9 +760,42 @@ def _eof(facts, rep):
             for s in blk["stmts"]:
                 if s["k"] == "assign" and s["place"]["local"] == 0:
                     cases.append(s)
-        # _0 is assigned either from the `?` residual of File::open or from the call of the line reader
-        ret_calls = [t for _, t in b.calls() if t["dest"]["local"] == 0]
-        ok = any(callee_name(t) in facts.bodies for t in ret_calls)
+        # the result of the line reader (the crate call that is handed the table) must flow into the returned value: directly,
+        # through Result combinators (`.map(|_| ())`), or through `?` (branch -> from_residual). Dropping it (`let _ =`,
+        # `.ok()`, logging the error) makes an I/O error look like a clean end of file.
+        def _locals_of(j, acc):
+            if isinstance(j, dict):
+                if "local" in j and isinstance(j["local"], int):
+                    acc.add(j["local"])
+                for v in j.values():
+                    _locals_of(v, acc)
+            elif isinstance(j, list):
+                for v in j:
+                    _locals_of(v, acc)
+            return acc
+        tainted = set()
+        for _, t in b.calls():
+            if callee_name(t) in facts.bodies and any("Planes" in b.locals[pl["local"]]["ty"]["s"] for pl in (operand_place(a) for a in t["args"]) if pl):
+                tainted.add(t["dest"]["local"])
+        changed = bool(tainted)
+        while changed:
+            changed = False
+            for bi, blk in enumerate(b.blocks):
+                if blk["cleanup"]:
+                    continue
+                for s_ in blk["stmts"]:
+                    if s_["k"] == "assign" and s_["place"]["local"] not in tainted and _locals_of(s_["rv"], set()) & tainted:
+                        tainted.add(s_["place"]["local"])
+                        changed = True
+                t = blk["term"]
+                if t["k"] == "call" and t["dest"]["local"] not in tainted and _locals_of(t["args"], set()) & tainted:
+                    p_ = t["callee"].get("path") or ""
+                    # a conversion that forgets the error (`.ok()`, `.is_ok()`, `.unwrap_or_default()`..) does not carry the result on
+                    if t["callee"].get("name") in ("ok", "err", "is_ok", "is_err", "unwrap_or", "unwrap_or_default", "unwrap_or_else", "drop"):
+                        continue
+                    tainted.add(t["dest"]["local"])
+                    changed = True
+        ok = 0 in tainted
     rep.oblige(ok, "file reader returns the loop result")
     if not ok:
         rep.add(Finding("R01.3", "file reader does not return the line loop's result", "read_from_file does not hand back the result of the line loop", None))
